@@ -801,3 +801,47 @@ B('g14i_next_filter_exists', ['C14'], 'R14.a',
   (ST, _LOOP, "    candidates = (pjoin(sr, rel_path) for sr in search_paths)\n    return next(filter(os.path.exists, candidates), None)\n"))
 B('g14i_next_filter_reversed', ['C14'], 'R14.i',
   (ST, _LOOP, "    candidates = [pjoin(sr, rel_path) for sr in search_paths]\n    return next(filter(isfile, reversed(candidates)), None)\n"))
+
+# ------------------------------------------------------------------ R14.e / R14.m: If-Modified-Since through a public helper
+# (round g) A public method / function is not dissolved by the front-end: the value it hands to build_file_response is
+# judged through its returns, in the caller's terms -- as if it were written in line.  Both endpoints must pass the request's
+# If-Modified-Since itself (sibling agreement), not filtered by the method / the clock (whatever the 200 branch sends as
+# Last-Modified must be accepted by the 304 branch when echoed).
+_APP_GFR = "    def get_file_response(self, path, request):\n"
+_SFR_GFR = "    def get_file_response(self, request):\n"
+_APP_IMS = "                   cached_modify_time=request.if_modified_since,\n                   mimetype=None,"
+_SFR_IMS = "                   cached_modify_time=request.if_modified_since,\n                   mimetype=self.mimetype,"
+_APP_IMS_HELPER = "                   cached_modify_time=self.get_cached_modify_time(request),\n                   mimetype=None,"
+T('g14m_ims_helper_method', ['C14'],
+  (ST, _APP_GFR, "    def get_cached_modify_time(self, request):\n        return request.if_modified_since\n\n" + _APP_GFR),
+  (ST, _APP_IMS, _APP_IMS_HELPER))
+T('g14m_ims_helper_function_both', ['C14'],
+  (ST, _CLS_ROUTE, "def client_validator(req):\n    since = req.if_modified_since\n    return since\n\n\n" + _CLS_ROUTE),
+  (ST, _SFR_IMS, "                   cached_modify_time=client_validator(request),\n                   mimetype=self.mimetype,"),
+  (ST, _APP_IMS, "                   cached_modify_time=client_validator(request),\n                   mimetype=None,"))
+T('g14m_ims_helper_route_keyword', ['C14'],
+  (ST, _SFR_GFR, "    def client_time(self, req, default=None):\n        since = req.if_modified_since\n        return since\n\n" + _SFR_GFR),
+  (ST, _SFR_IMS, "                   cached_modify_time=self.client_time(req=request),\n                   mimetype=self.mimetype,"))
+B('g14m_ims_helper_drops_future_dates', ['C14'], 'R14.m',
+  (ST, _APP_GFR, "    def get_cached_modify_time(self, request):\n        ims = request.if_modified_since\n"
+                 "        if ims is not None and ims > datetime.utcnow():\n            ims = None\n        return ims\n\n" + _APP_GFR),
+  (ST, _APP_IMS, _APP_IMS_HELPER))
+B('g14m_ims_route_helper_get_only', ['C14'], 'R14.m',
+  (ST, _SFR_GFR, "    def client_time(self, request):\n        if request.method != 'GET':\n            return None\n"
+                 "        return request.if_modified_since\n\n" + _SFR_GFR),
+  (ST, _SFR_IMS, "                   cached_modify_time=self.client_time(request),\n                   mimetype=self.mimetype,"))
+B('g14m_ims_shared_function_clock_filter', ['C14'], 'R14.m',
+  (ST, _CLS_ROUTE, "def client_validator(req):\n    since = req.if_modified_since\n    now = datetime.utcnow()\n"
+                   "    return since if since and since <= now else None\n\n\n" + _CLS_ROUTE),
+  (ST, _SFR_IMS, "                   cached_modify_time=client_validator(request),\n                   mimetype=self.mimetype,"),
+  (ST, _APP_IMS, "                   cached_modify_time=client_validator(request),\n                   mimetype=None,"))
+B('g14m_ims_helper_wrong_header', ['C14'], 'R14.m',
+  (ST, _APP_GFR, "    def get_cached_modify_time(self, request):\n        return request.if_unmodified_since\n\n" + _APP_GFR),
+  (ST, _APP_IMS, _APP_IMS_HELPER))
+B('g14m_ims_helper_runs_off_its_end', ['C14'], 'R14.m',
+  (ST, _APP_GFR, "    def get_cached_modify_time(self, request):\n        if request.method in ('GET', 'HEAD'):\n"
+                 "            return request.if_modified_since\n\n" + _APP_GFR),
+  (ST, _APP_IMS, _APP_IMS_HELPER))
+B('g14e_ims_helper_other_request', ['C14'], 'R14.e',
+  (ST, _APP_GFR, "    def get_cached_modify_time(self, request, previous=None):\n        return previous\n\n" + _APP_GFR),
+  (ST, _APP_IMS, _APP_IMS_HELPER))
